@@ -138,6 +138,19 @@ func (f *g2lFn) emit() string {
 		}
 		return false
 	}
+	// a loop of a recursive function that calls the function back: the definitions are mutually recursive
+	mutual := false
+	if f.rec {
+		for _, l := range f.loops {
+			if strings.Contains(l, "("+f.leanName+" ") {
+				mutual = true
+			}
+		}
+	}
+	if mutual {
+		out.WriteString("mutual\n")
+	}
+	defer func() {}()
 	for _, l := range f.loops {
 		l = strings.ReplaceAll(l, "\x00ABS\x00", absArgs)
 		tvs := ""
@@ -178,6 +191,9 @@ func (f *g2lFn) emit() string {
 		fmt.Fprintf(out, "def %s %s%s(fuel : Nat) %s: M %s := do\n%s\n", f.leanName, tvs, absBinder, paramStr, f.retType, indent(body, 2))
 	default:
 		fmt.Fprintf(out, "def %s %s%s%s: M %s := do\n%s\n", f.leanName, tvs, absBinder, paramStr, f.retType, indent(body, 2))
+	}
+	if mutual {
+		out.WriteString("end\n")
 	}
 	return out.String()
 }
@@ -395,6 +411,29 @@ func g2lEmitUnit(u *g2lUnit) string {
 			}()
 			if txt, ok := u.ifaceStructs[s]; ok {
 				b.WriteString(txt + "\n")
+				return
+			}
+			if variants, ok := u.sumTypes[s]; ok {
+				fmt.Fprintf(b, "/-- `type %s interface`: the sum of the struct types that implement it -/\ninductive %s where\n", s, s)
+				for _, v := range variants {
+					fmt.Fprintf(b, "  | %s (x : %s)\n", v, v)
+				}
+				fmt.Fprintf(b, "instance : Inhabited %s := ⟨%s.%s default⟩\n", s, s, variants[0])
+				flds := []string{}
+				for _, fld := range u.embedGet {
+					flds = append(flds, fld)
+				}
+				sort.Strings(flds)
+				for i, fld := range flds {
+					if i > 0 && flds[i-1] == fld {
+						continue
+					}
+					fmt.Fprintf(b, "/-- the embedded `%s` of whichever variant (interface method) -/\ndef %s_%s : %s → %s\n", fld, s, fld, s, fld)
+					for _, v := range variants {
+						fmt.Fprintf(b, "  | .%s x => x.%s\n", v, fld)
+					}
+				}
+				b.WriteString("\n")
 				return
 			}
 			dummy.fd = nil
